@@ -1846,7 +1846,8 @@ func guardSelfShadow(np *npkg, file int, call *ast.CallExpr, old, new []byte) ([
 		}
 	}
 	es, isExprStmt := stmt.(*ast.ExprStmt)
-	if !isExprStmt || es.X != ast.Expr(call) {
+	_, isReturn := stmt.(*ast.ReturnStmt) // `return f(x)`: nothing of the caller's block follows the inlined statements
+	if !isReturn && (!isExprStmt || es.X != ast.Expr(call)) {
 		return new, false
 	}
 	var out bytes.Buffer
